@@ -232,6 +232,10 @@ class Tokenizer(object):
                                         name = 'ATKEYWORD'
 
                             value = found  # should not contain unicode escape (?)
+                            if 'ATKEYWORD' == name:
+                                # an unknown at-keyword is a name like any other:
+                                # written with escapes it is the same name
+                                value = self.unicodesub(_repl, found)
 
                         if self._doComments or (not self._doComments and
                                                 name != 'COMMENT'):
